@@ -108,6 +108,30 @@ Fixpoint first_rejected (limit : Z) (sizes : list Z) : option nat :=
   | s :: rest => if accepts limit s then option_map S (first_rejected limit rest) else Some O
   end.
 
+(* ---------- the readers the set-up code puts between the socket and the handler ---------- *)
+(* createServer (reference server) and the client set-up (reference client) hand the receive limit
+   to connect.WithReadMaxBytes: a bound on each MESSAGE.  Anything else the set-up code wraps round
+   the request / response body (http.MaxBytesHandler, http.MaxBytesReader, io.LimitReader ...)
+   bounds the BODY: the sum of the enveloped messages (5 bytes of prefix each).  The documented
+   chain (docs/configuring_and_running_tests.md: "applied on a per message basis, so it does not
+   limit the total amount of data transferred in a streaming operation") is the single per-message
+   reader; the chain the code installs is regenerated into C19_Consts.v (kinds of the read-limiting
+   call sites of the two packages: 0 = per message, anything else = per body). *)
+Inductive reader := PerMessage (bound : Z) | PerBody (cap : Z).
+Definition envelope_prefix : Z := 5.
+Definition body_length (sizes : list Z) : Z := fold_right (fun s a => envelope_prefix + s + a) 0 sizes.
+Definition reader_accepts (r : reader) (sizes : list Z) : bool :=
+  match r with
+  | PerMessage bound => stream_accepts bound sizes
+  | PerBody cap => body_length sizes <=? cap
+  end.
+Definition chain_accepts (rs : list reader) (sizes : list Z) : bool :=
+  forallb (fun r => reader_accepts r sizes) rs.
+Definition documented_chain (limit : Z) : list reader := [PerMessage limit].
+(* the chain described by a table of call-site kinds; `cap` = whatever bound a per-body reader got *)
+Definition chain_of (kinds : list Z) (limit cap : Z) : list reader :=
+  map (fun k => if k =? 0 then PerMessage limit else PerBody cap) kinds.
+
 (* ---------- the loader: which test cases of a suite get expanded ---------- *)
 (* parseTestSuites, per suite file: for every test case, in order: a case that carries expand
    directives in a suite whose relevant codecs are not exactly [CODEC_PROTO] is an error; then
@@ -244,7 +268,7 @@ Definition run_c19_stream (args : list sx) : sx :=
              | None => -1
              | Some i => if (side =? 1) || (st =? 5) then Z.of_nat i else -2
              end in
-    ret (L [I limit; L (map I sizes); sx_bool (stream_accepts limit sizes); I k])
+    ret (L [I limit; L (map I sizes); sx_bool (chain_accepts (documented_chain limit) sizes); I k])
   | _ => None end).
 
 (* ("c19.load" id flag mode (codecs) ((streamType (msgs) (dirs))...)): one suite file through
